@@ -51,7 +51,7 @@
 //   hold for v1 and v2 input, (d) for v1.  `read_string` is the REAL default `Read::read_string` (DecoderV2 overrides it with a
 //   separate string column whose constructor validates UTF-8 the same way: not modelled).
 //
-// FINDINGS (F-DC-1 .. 13: reported, REPAIRED in /repo meanwhile; each is now an ordinary discharged obligation and has a canary)
+// FINDINGS (F-DC-1 .. 15: reported, REPAIRED in /repo meanwhile; each is now an ordinary discharged obligation and has a canary)
 //   F-DC-1 idranges_decode::pre [alloc_budget_ok]  `SmallVec::with_capacity(len as usize)`, len = untrusted u32.
 //          `01 00 FF FF FF FF 0F` (IdSet::decode_v1): 32 GiB request -> "memory allocation of 34359738360 bytes failed", SIGABRT.
 //   F-DC-3 sv_decode::pre [alloc_budget_ok]  `HashMap::with_capacity_and_hasher(len, ..)`.  `FF FF FF FF 0F`: 146 GB request, SIGABRT.
@@ -76,15 +76,16 @@
 //   NOTE on masking: Verus reports a limited number of errors per function; while F-DC-7 was open, a missing proof hint in
 //   the same function was hidden behind it.  After a repair every obligation of the function has to be looked at again.
 //
-// OPEN FINDINGS (C10 "time / memory proportional to the input"; NOT expressible as a Verus obligation -- cost is not modelled --
-//   measured on the real crate, release build, reproducers in the report of this unit)
-//   F-DC-14 IdMap::decode, introduced by the repair of F-DC-13: n ranges [i, n) of one client, range i carrying one NEW attribute
-//          (14 bytes per range) decode to n pieces [i, i+1) with i + 1 attributes each: the VALUE is quadratic in the input and
-//          the time cubic (`ContentAttributes ==` is a quadratic set comparison, called per insert).  IdMap::<String>::decode_v1:
-//          12.5 KB -> 5.5 MB, 2.0 s;  26.5 KB -> 21.8 MB, 14.5 s;  54.5 KB -> 86.8 MB, 110 s  (x4 memory, x8 time per doubling).
-//   F-DC-15 IdSet::decode, introduced by the repair of F-DC-9: k sections of the SAME client, one range each (6 bytes per section):
-//          every `insert_range` of a repeated client is an O(size) `IdRanges::merge`, so the time is quadratic in the input
-//          (memory stays linear).  IdSet::decode_v1: 0.29 MB -> 3.0 s;  0.59 MB -> 11.7 s;  1.19 MB -> 50.7 s.
+//   F-DC-14 (C10 "time / memory proportional to the input"; cost is not modelled, measured on the real crate, release build)
+//          IdMap::decode normalised arbitrary ranges (repair of F-DC-13): n ranges [i, n) of one client, range i carrying one NEW
+//          attribute, decoded to n pieces with i + 1 attributes each: value quadratic, time cubic in the input (54.5 KB ->
+//          86.8 MB, 110 s).  Repair: STRICT decoding (clients strictly ascending; ranges non-empty, ascending, disjoint; anything
+//          else is Error::UnexpectedValue), no sort, every insert_range on its tail path.  Now: regions idmap_check_client /
+//          idmap_check_range / idmap_store_section (units/dec_comp/idmap.rs, (d)).
+//   F-DC-15 (same clause) IdSet::decode merged every repeated client section on arrival: k sections of ONE client -> one O(size)
+//          `IdRanges::merge` each, quadratic time (1.19 MB -> 50.7 s).  Repair: all decoded ranges are collected in one flat
+//          list, sorted by (client, start) and inserted one by one with `IdSet::insert` (tail path).  The contract is unchanged;
+//          the flat list is within the budget (invariant `rest + 2 * sections + 2 * |flat| <= input`).
 //
 // TRUSTED (each declared with its std-documented contract)
 //   A4   axiom_client_id_ord_key_model / axiom_client_id_hash_key_model: derived Ord / Hash+Eq of ClientID are lawful keys
@@ -92,16 +93,18 @@
 //   A9   vx_from_utf8 (`std::str::from_utf8`: Ok(s), s@ == from_utf8(b), IFF valid_utf8(b); uninterpreted valid_utf8 / from_utf8 /
 //        utf8, opaque Utf8ErrorStandIn).  A9b vx_from_utf8_unchecked (`from_utf8_unchecked`, requires valid_utf8: the documented
 //        safety condition) is NOT reached by the current code; it exists so that the regression canary has something to fail.
-//   A10  vx_sort_by_start (`raw.sort_unstable_by_key(|range| range.start)`), vx_sort_entries_by_start
-//        (`entries.sort_by_key(|(range, _)| range.start)`): the result is a permutation of the input (same multiset), ordered by
-//        the key.  Only the permutation half is used: the canonical result does not depend on the order (dropping the sort is
-//        not property-breaking; it is what keeps every `insert` on its O(1) tail path).
+//   A10  vx_sort_by_start (`raw.sort_unstable_by_key(|range| range.start)`), vx_sort_by_client_start
+//        (`ranges.sort_unstable_by_key(|(client, range)| (*client, range.start))`): the result is a permutation of the input (same
+//        multiset), ordered by the key.  Only the permutation half is used: the canonical result does not depend on the order
+//        (dropping a sort, or sorting by `range.start` only, is not property-breaking; the order is what keeps every insertion
+//        on its O(1) tail path).
 //   A2   vx_arc_str (`Arc<str>::from(&str)`), vx_arc_bytes (`Arc<[u8]>::from(&[u8])`), vx_i64_from_be_bytes, and
 //        assume_specification of f32::from_be_bytes / f64::from_be_bytes (total, value unspecified); opaque types Str / Bytes
 //   STUBS (external_body, contract text CROSS-CHECKED by the extractor against the proving unit on every run):
-//        IdRanges<T>::insert_with (ids_insert), IdRanges<T>::merge (ids_merge), IdSet::insert_range (ids_lift, idset_insert_range),
-//        IdMapInner<T>::insert_range (ids_lift, inner_insert_range).  `IdRanges<()>::insert`, `IdRanges::new / default / is_empty /
-//        from_raw`, `IdMapInner::new / default / len / clients_mut`, `IdSet::new`, `IdMap::new` are RE-VERIFIED here.
+//        IdRanges<T>::insert_with (ids_insert), IdRanges<T>::merge (ids_merge), IdSet::insert (ids_lift, idset_insert),
+//        IdSet::insert_range (ids_lift, idset_insert_range; no longer called, kept for regressions), IdMapInner<T>::insert_range
+//        (ids_lift, inner_insert_range).  `IdRanges<()>::insert`, `IdRanges::new / default / is_empty /
+//        from_raw`, `IdMapInner::new / default / len / clients_mut`, `IdSet::new`, `IdMap::new`, `ID::new` are RE-VERIFIED here.
 //   R13  ClientID is a stand-in (`ClientID(pub u64)` holding the yjs value); `ClientID::new` carries the real body's
 //        `debug_assert!(value & MASK == 0)` as its precondition, `get` returns the value.  `ClientID::decode` is the real body.
 //        ContentAttribute<A> is an opaque stand-in with contract-free `new` / `clone` / `==` / `hash`; ContentAttributes<A>,
@@ -119,6 +122,8 @@
 //   DecoderV1.cursor / EncoderV1.buf; the two sorts -> A10 and `std::str::from_utf8(buf).map_err(|_| ..)` ->
 //   `vx_from_utf8(buf).map_err(|_e: Utf8ErrorStandIn| ..)` (A9; Verus rejects `|_|`): UNIT-WIDE rules because `|` is the field
 //   separator of an extract line -- each `from=` contains the real closure text, so an edit of a closure makes the rule miss;
+//   `range.iter()` -> `range.0.iter()` (INLINE, accessor body checked); R18 statement regions idmap_check_client /
+//   idmap_check_range / idmap_store_section (same source text as idmap_decode, `id_map.inner` -> the parameter `inner`);
 //   IdMap: `ContentAttributes<A>` -> `CA`, `ContentAttributes(attrs)` -> `CA::vx_from_attrs(attrs)`, `attrs: Default::default()` ->
 //   `HashSet::new()`; INLINE of IdRanges::iter, IdMapInner::iter and `impl From<&[u8]> for DecoderV1` (accessor bodies checked
 //   on every run).  `impl Decode for X` / `impl Encode for X` stay trait impls of the sliced traits.  The consuming loops
@@ -135,7 +140,8 @@
 // NOT COVERED: the exact value of IdMap::decode (no spec decoder: serde attributes), Update / Block decoding (pointer core),
 //   IndexScope / StickyIndex (unit sticky), StateVector / AwarenessUpdate / Snapshot / Any / IdMap ENCODERS and their round trips,
 //   Any's result size, the exact value of floats, stack usage as such (only the recursion depth is bounded), Drop of deeply
-//   nested values, running time / memory of the VALUE beyond the element counts above (see OPEN FINDINGS).
+//   nested values, running time / memory beyond the element counts above (cost is not modelled: F-DC-14 / F-DC-15 were found by
+//   measurement).
 #![allow(unused_imports, unused_variables, unused_mut, dead_code, unused_parens, unused_braces, unused_assignments)]
 use vstd::prelude::*;
 use vstd::slice::*;
